@@ -239,7 +239,8 @@ def rule_off(ctx):
     ctx.rule("C15.OFF", "no delay when no applicable limit is set; every set limit is waited for (gathered)")
     w = p.method("ThrottleStreamIO", "wait")
     creates = [c for c in walk_no_nested(w) if isinstance(c, ast.Call) and (dotted(c.func) or "").endswith("create_task")]
-    direct = [a for a in walk_no_nested(w) if isinstance(a, ast.Await) and isinstance(a.value, ast.Call) and is_method_call(a.value, "wait") and not is_self_call(a.value)]
+    direct = [a for a in walk_no_nested(w) if isinstance(a, ast.Await) and isinstance(a.value, ast.Call) and is_method_call(a.value, "wait") and not is_self_call(a.value)
+              and (dotted(a.value.func) or "") != "asyncio.wait"]
     sites = creates + [a.value for a in direct]
     ok = bool(sites)
     for c in sites:
